@@ -243,6 +243,12 @@ func (w *W) LibTasks() []simrt.TaskInfo {
 		if strings.HasPrefix(t.Site, "H:") && !strings.HasPrefix(t.Site, "H:tran:") {
 			continue
 		}
+		// a goroutine of net/http / gorilla / crypto/tls adopted inside the
+		// simulation counts when library code is on its stack (the rule of the
+		// engine-R census): otherwise it is the dependency's own housekeeping
+		if t.Adopted && !hasLibraryFrame(t.Stack) {
+			continue
+		}
 		out = append(out, t)
 	}
 	return out
@@ -411,4 +417,27 @@ func (w *W) BlockedReport() string {
 		}
 	}
 	return sb.String()
+}
+
+func hasLibraryFrame(stack string) bool {
+	for _, l := range strings.Split(stack, "\n") {
+		if strings.HasPrefix(l, "go.nanomsg.org/mangos/v3") && !strings.Contains(l, "/verifsim/") {
+			return true
+		}
+	}
+	return false
+}
+
+// libFrameSite names the innermost library function on a goroutine's stack.
+func libFrameSite(stack string) string {
+	for _, l := range strings.Split(stack, "\n") {
+		if strings.HasPrefix(l, "go.nanomsg.org/mangos/v3") && !strings.Contains(l, "/verifsim/") {
+			l = strings.TrimPrefix(l, "go.nanomsg.org/mangos/v3/")
+			if i := strings.LastIndex(l, "("); i > 0 {
+				l = l[:i]
+			}
+			return l
+		}
+	}
+	return "?"
 }
